@@ -242,14 +242,16 @@ def strip_comment_lines(text: str):
 
 def lexer_residue(path_dir: str, name: str, text: str):
     """Token residue after the compiler's lexer removed comments (None if g++ fails)."""
-    path = os.path.join(path_dir, name)
+    # the name comes from the library and may hold characters the interpreter's file system
+    # encoding cannot express (ASCII locale, vlib.surroundings): paths as UTF-8 bytes
+    path = os.path.join(path_dir, name).encode('utf-8')
     with open(path, 'w', encoding='utf-8', newline='') as fh:
         fh.write(text)
-    proc = subprocess.run(['g++', '-std=c++17', '-x', 'c++', '-fpreprocessed', '-dD', '-E', '-P',
-                           path], capture_output=True, text=True, timeout=60)
+    proc = subprocess.run([b'g++', b'-std=c++17', b'-x', b'c++', b'-fpreprocessed', b'-dD', b'-E',
+                           b'-P', path], capture_output=True, timeout=60)
     if proc.returncode != 0:
-        return None, proc.stderr[-300:]
-    return [ln for ln in proc.stdout.split('\n') if ln.strip()], ''
+        return None, proc.stderr.decode('utf-8', 'replace')[-300:]
+    return [ln for ln in proc.stdout.decode('utf-8', 'replace').split('\n') if ln.strip()], ''
 
 
 def eval_build_pair(arg):
